@@ -406,7 +406,8 @@ Inductive reach_in : fw * fenv -> Prop :=
 | ri_now s o s' : reach_in s -> do_fxop sc s (FXNow o) = (s', 0) -> reach_in s'
 | ri_at s t k p s' : reach_in s -> do_fxop sc s (FXAt t k p) = (s', 0) -> reach_in s'
 | ri_step s s' : reach_in s -> step wsd (exec_fl sc) fl_wfail s = Some (Ok s') -> reach_in s'
-| ri_start s d en' : reach_in s -> start_run wsd (snd s) d = Ok en' -> reach_in (fst s, en').
+| ri_start s d en' : reach_in s -> start_run wsd (snd s) d = Ok en' -> reach_in (fst s, en')
+| ri_late s d ups s' : reach_in s -> do_fxop sc s (FXLate d ups) = (s', 0) -> reach_in s'.
 
 Lemma no_holder_J skip w en : (forall d, d_reserved (getd w d) = None) -> J skip w en.
 Proof. intros N d _ [_ [IR _]]. rewrite N in IR. contradiction. Qed.
@@ -420,7 +421,7 @@ Qed.
 
 Theorem reach_in_JS s : reach_in s -> JS s.
 Proof.
-  induction 1 as [s WF E|s o s' _ IH E|s t k p s' _ IH E|s s' _ IH E|s d en' _ IH E].
+  induction 1 as [s WF E|s o s' _ IH E|s t k p s' _ IH E|s s' _ IH E|s d en' _ IH E|s d ups s' _ IH E].
   - (* initialisation: nothing is reserved; the pending output of the initial world plays no role *)
     unfold do_fxop in E. cbn [fst snd] in E.
     set (w0 := fq_world sc) in *. set (w := init_world (fl_fuel w0) (now (init_env (A:=fact))) w0) in *.
@@ -448,6 +449,8 @@ Proof.
     unfold start_run, schedule in E. cbn in E. destruct (now (snd s) + d <? now (snd s)); [discriminate|]. injection E as <-.
     intros d' NS IH'. destruct (H d' NS IH') as [e' [A [B [C D]]]]. exists e'. repeat split; auto. cbn.
     destruct D as [[D1 D2]|D]; [left; split; [apply (insort_in fact); right; exact D1|exact D2]|right; exact D].
+  - destruct IH as [O [I H]]. unfold do_fxop in E.
+    apply (JS_fin wsd (fst s) (snd s) (late_create (fl_fuel (fst s)) (now (snd s)) (fst s) d ups) s' O I H); [apply RJ_late_create|exact E].
 Qed.
 
 (** the driver's own reachability (whole runs), restricted to histories without an exception, is covered *)
@@ -469,7 +472,7 @@ Qed.
 Theorem reach_ok_in s : reach_ok s -> reach_in s.
 Proof.
   induction 1 as [s WF E|s x s' _ IH NX E]; [eapply ri_init; eauto|].
-  destruct x as [| |d|t k p|o].
+  destruct x as [| |d|t k p|o|d ups].
   - contradiction.
   - unfold do_fxop in E. destruct (step wsd (exec_fl sc) fl_wfail s) as [[s1|s1]|] eqn:ST; cbn in E.
     + injection E as <-. eapply ri_step; eauto.
@@ -483,6 +486,7 @@ Proof.
     + cbn in E. injection E as _ E. st0 E.
   - eapply ri_at; eauto.
   - eapply ri_now; eauto.
+  - eapply ri_late; eauto.
 Qed.
 
 (** * C11, last clause *)
